@@ -157,7 +157,9 @@ def bus_history(ctx, simpy, uros, msgs, rng, k):
     class Node:
         def __init__(self, name, n):
             self.name = name
-            self.params = [uros.Param(core, "%s/p%d" % (name, i), float(i), "f8") for i in range(n)]
+            # defaults written the way the library's own nodes write them: `0` (an int literal for an "f8" parameter), a float,
+            # a numpy scalar -- the value a node sees after a broadcast is the value that was set, whatever the default's type
+            self.params = [uros.Param(core, "%s/p%d" % (name, i), [int(i), float(i), np.float64(i)][(i + n) % 3], "f8") for i in range(n)]
             uros.Subscriber(core, "params", msgs.Params, self.cb)
 
         def cb(self, msg):
